@@ -112,21 +112,22 @@ class Typestate:
         return out
 
     # ------------------------------------------------------------ the analysis
-    def analyze(self, body, entry=None, ctx=None):
-        """returns (events, state_in) ; state_in[bb] = {'cell': {cell: frozenset}, 'loc': {key: frozenset}, 'alias': {key: cell}}"""
+    def analyze(self, body, entry=None, ctx=None, cap=24):
+        """returns (events, state_in).  Trace-partitioned: state_in[bb] is a list of distinct abstract states
+        ({'cell': {cell: frozenset}, 'loc':.., 'alias':.., 'ladt':..}); beyond `cap` states per block they are joined."""
         U = self.universe
         init = {"cell": {c: (entry.get(c, U[c]) if entry else U[c]) for c in self.cells}, "loc": {}, "alias": {}, "ladt": {}}
-        state_in = {0: init}
-        work = [0]
+        state_in = {0: [init]}
+        keys_in = {0: {_skey(init)}}
+        work = [(0, init)]
         events = {}
-        nblocks = len(body.blocks)
         iters = 0
         while work:
             iters += 1
-            if iters > 20000:
+            if iters > 60000:
                 break
-            bb = work.pop()
-            st = _copy(state_in[bb])
+            bb, st0 = work.pop()
+            st = _copy(st0)
             blk = body.blocks[bb]
             for i, s in enumerate(blk["st"]):
                 if "p" not in s:
@@ -137,15 +138,38 @@ class Typestate:
             for succ, sst in outs:
                 if succ is None or body.is_cleanup(succ):
                     continue
-                if succ not in state_in:
-                    state_in[succ] = sst
-                    work.append(succ)
+                k = _skey(sst)
+                ks = keys_in.setdefault(succ, set())
+                if k in ks:
+                    continue
+                lst = state_in.setdefault(succ, [])
+                if len(lst) >= cap:
+                    j = lst[0]
+                    for x in lst[1:]:
+                        j, _ = _join(j, x)
+                    j, _ = _join(j, sst)
+                    kj = _skey(j)
+                    state_in[succ] = [j]
+                    if kj in ks and len(lst) == 1:
+                        continue
+                    keys_in[succ] = {kj} | ks
+                    work.append((succ, j))
                 else:
-                    j, changed = _join(state_in[succ], sst)
-                    if changed:
-                        state_in[succ] = j
-                        work.append(succ)
+                    ks.add(k)
+                    lst.append(sst)
+                    work.append((succ, sst))
         return list(events.values()), state_in
+
+    def states_at_end(self, body, bb, state_in):
+        """abstract states at the end of block bb (before its terminator)"""
+        out = []
+        for st0 in state_in.get(bb, []):
+            st = _copy(st0)
+            for i, s in enumerate(body.blocks[bb]["st"]):
+                if "p" in s:
+                    self._stmt(body, bb, i, s, st, {}, None)
+            out.append(st)
+        return out
 
     def _value_of_operand(self, body, op, st):
         """(value set or None=unknown, alias cell or None, adt)"""
@@ -377,19 +401,29 @@ class Typestate:
                 t = b.term(bb)
                 if t["k"] != "call":
                     continue
-                # state at the call = state at block end; recompute by replaying the block
-                st = _copy(sin[bb])
-                for i, s in enumerate(b.blocks[bb]["st"]):
-                    if "p" in s:
-                        self._stmt(b, bb, i, s, st, {}, None)
                 tg = []
                 if t["f"] in self.w.bodies:
                     tg.append(t["f"])
                 tg += [c for c in closure_args(b, t) if c in self.w.bodies]
+                if not tg:
+                    continue
+                sts = self.states_at_end(b, bb, sin)
+                if not sts:
+                    continue
+                ent = {}
+                for st in sts:
+                    for c, v in st["cell"].items():
+                        ent[c] = ent.get(c, frozenset()) | v
                 for x in tg:
-                    rec(x, dict(st["cell"]), d - 1, chain + (fid,))
+                    rec(x, ent, d - 1, chain + (fid,))
         rec(root_id, None, depth, ())
         return out
+
+
+def _skey(st):
+    return (tuple(sorted((c, tuple(sorted(v))) for c, v in st["cell"].items())),
+            tuple(sorted((str(k), tuple(sorted(v))) for k, v in st["loc"].items())),
+            tuple(sorted((str(k), v) for k, v in st["alias"].items())))
 
 
 def _copy(st):
